@@ -59,6 +59,8 @@ StartRun ==
         /\ kfHard' = [n \in 1..Len(p.nodes) |-> ""]
         /\ histIn' = <<>>
         /\ crashed' = FALSE
+        /\ armed' = None
+        /\ fired' = FALSE
         /\ viol' = IF Acyclic(p) \/ CycWellFormed(p) THEN viol
                    ELSE Append(viol, V(l, "harness_cyclic_program", 0, 0, 0))
         /\ stats' = stats
@@ -93,10 +95,13 @@ TRecovered == IsEvent("recovered") /\ Recovered(l, Ev.inputs) /\ Consume
 TCrashPanic == IsEvent("crash_panic") /\ CrashPanic(l) /\ Consume
 THang == IsEvent("hang") /\ Hang(l) /\ Consume
 TQPanic == IsEvent("qpanic") /\ QueryPanicked(l, Ev.n) /\ Consume
+TArm == IsEvent("arm") /\ Arm(l, Ev.n) /\ Consume
+TDisarm == IsEvent("disarm") /\ Disarm(l) /\ Consume
+TCancel == IsEvent("cancel") /\ Cancelled(l) /\ Consume
 
 Known == {"prog", "reset", "begin", "set", "world", "refresh_start", "refresh",
           "commit", "tracked", "drop", "query", "enter", "read", "exec", "restart",
-          "crash", "recovered", "crash_panic", "hang", "qpanic"}
+          "crash", "recovered", "crash_panic", "hang", "qpanic", "arm", "disarm", "cancel"}
 
 TUnknown ==
     /\ l <= Len(Rec) /\ Ev.e \notin Known
@@ -115,7 +120,7 @@ Finish ==
 TraceNext ==
     \/ StartRun \/ EndRun \/ TBegin \/ TSet \/ TWorld \/ TRefreshStart \/ TRefresh
     \/ TCommit \/ TTracked \/ TDrop \/ TQuery \/ TEnter \/ TRead \/ TExec \/ TRestart
-    \/ TCrash \/ TRecovered \/ TCrashPanic \/ THang \/ TQPanic
+    \/ TCrash \/ TRecovered \/ TCrashPanic \/ THang \/ TQPanic \/ TArm \/ TDisarm \/ TCancel
     \/ TUnknown \/ Finish
 
 TraceSpec == TraceInit /\ [][TraceNext]_traceVars
